@@ -312,6 +312,10 @@ CONFIGS['residue'] = dict(transports=['t1', 't2'], ns_h=['/', '/a'],
 CONFIGS['residue'] = dict(CONFIGS['residue'], plain_transports=['t2'])
 CONFIGS['residue_t'] = dict(CONFIGS['residue'], transports=['t1'],
                             plain_transports=[], max_sid=3)
+CONFIGS['residue_ac_quick'] = dict(CONFIGS['residue'], transports=['t1'],
+                                   plain_transports=[], max_sid=2,
+                                   always_connect=True, ns_h=['/'],
+                                   ns_all=['/'], ns_api=['/'])
 CONFIGS['residue_quick'] = dict(CONFIGS['residue'], transports=['t1'],
                                 max_sid=2)
 
@@ -385,7 +389,8 @@ CONFIGS['hostile_quick'] = dict(CONFIGS['hostile'], transports=['t1', 't2'],
                                      'dictpayload', 'emptylist', 'numpayload',
                                      'longid', 'deepjson', 'bytes', 'count11',
                                      'strpayload', 'intevent',
-                                     'evunknownns', 'ackunknownns'])
+                                     'evunknownns', 'ackunknownns',
+                                     'bytesevent', 'bytesdisc', 'bytesconn'])
 
 # the same isolation claim for servers using the msgpack serializer
 CONFIGS['hostile_mp_quick'] = dict(
